@@ -289,6 +289,54 @@ def custom_dealloc_guarded(P, fname):
     return True, None, None
 
 
+BYTE_WRITERS = {'memcpy': 0, 'memmove': 0, 'memset': 0, 'strcpy': 0, 'strncpy': 0, 'memswap': (0, 1)}
+
+
+def header_writes(P, fn):
+    """sites in fn that write an object's header other than through header_init: a byte-writing call whose destination is derived from
+    header(x), or a store through header(x)"""
+    out = []
+    N = util.Norm(P, fn, expand_locals=True, inline=False)
+
+    def from_header(e):
+        try:
+            e = N.canon(e)
+        except Exception:
+            pass
+        return any(x[0] == 'call' and ir.callee_name(x) == 'header' for x in ir.walk(e))
+    for e, ln in ir.all_exprs(fn['body']):
+        for x in ir.walk(e):
+            if x[0] == 'call' and ir.callee_name(x) in BYTE_WRITERS:
+                ds = BYTE_WRITERS[ir.callee_name(x)]
+                for d in (ds if isinstance(ds, tuple) else (ds,)):
+                    if d < len(x[2]) and from_header(x[2][d]):
+                        out.append((ln, '%s writes onto %s' % (ir.callee_name(x), ir.fmt(x[2][d]))))
+            elif x[0] == 'assign' and x[2][0] in ('arrow', 'idx', 'un', 'dot') and from_header(x[2][1] if x[2][0] != 'un' else x[2][2]):
+                out.append((ln, 'stores to %s' % ir.fmt(x[2])))
+    return out
+
+
+def check_header_writers(P, ctx, Ppos):
+    """an object's type, allocation class and magic number are written once, by header_init, when the object is created: whoever copies
+    them from another object gives a heap block the class of a stack object or a container element (del then refuses it or frees what
+    it must not).  dealloc's poison fill of a block that is being released is the one other writer."""
+    rule = 'C19.header-written-only-at-creation'
+    n = 0
+    for fn in P.all_functions():
+        if not fn['unit'].startswith('src/') or fn.get('body') is None:
+            continue
+        n += 1
+        if fn['name'] in ('header_init', 'dealloc'):
+            continue
+        for ln, what in header_writes(P, fn):
+            ctx.fn(fn)
+            ctx.refuted(rule, '%s:header-write' % fn['name'], site(fn, ln), 'the header of an object is written outside header_init: %s' % what)
+    pos = header_writes(Ppos, Ppos.fn('PosThing_Clone'))
+    ctx.check(bool(pos), rule, 'positive-example', 'witness/positive/c19_dealloc.c', 'the detector fires on a clone that byte-copies a header (PosThing_Clone)')
+    ctx.check(n > 300, rule, 'functions-scanned', 'src/', '%d functions of the library scanned for writes through header(x)' % n)
+    ctx.floor(rule, 2)
+
+
 def check_custom_dealloc(P, ctx, Ppos):
     rule = 'C19.custom-dealloc'
     # dealloc() dispatches to a type's own Alloc.dealloc *before* its allocation-class tests, so such a function must carry them itself
@@ -354,6 +402,11 @@ def run(ctx, load):
     Ppos = load(['src/Exception.c'], 'default', ['/verif/witness/positive/c19_dealloc.c'])
     ctx.config = 'default'
     check_custom_dealloc(P, ctx, Ppos)
+    check_header_writers(P, ctx, Ppos)
+    # an object registered with the collector leaves through the collector's removal on every path (shared with C06.del-routes): a
+    # release that bypasses it leaves an entry behind, and the next sweep finalises the freed block again
+    from .rules_c06 import check_del_routes
+    ctx.borrow('C19.released-through-the-registry', 2, lambda: check_del_routes(P, ctx))
     from .rules_c05 import check_fresh_slot
     from .effects import Effects
     before = len(ctx.obs)
